@@ -85,7 +85,7 @@ TESTED_NOT_PROVED = [
     "graph_to_rsmi / its_to_rsmi / gml_to_smart: modelled up to the two RWMol handed to RDKit (observed on the real call by a spy on "
     "graph_to_smi / GraphToMol.graph_to_mol); what RDKit writes from them is not modelled",
 ]
-LEVEL_TEXT = ("Machine-checked proof (Coq, 48 theorems, closed under the global context) over an executable model of the GML writer/reader at "
+LEVEL_TEXT = ("Machine-checked proof (Coq, 49 theorems, closed under the global context) over an executable model of the GML writer/reader at "
               "record level, of its_to_gml / gml_to_its / smart_to_gml / get_rc / its_decompose / ITSGraph at graph level, of h_to_explicit / "
               "h_to_implicit, and of the attribute copying of MolToGraph / GraphToMol: label round trip for every element symbol and every "
               "charge; ITS -> GML -> ITS restores atoms, both-side charges and (before, after) orders for every reaction-centre-shaped ITS, "
@@ -2275,7 +2275,7 @@ def gen_cases(tier, rng):
     cases.append(dict(kind="hx", g={"nodes": [], "edges": []}, nodes=None, its=False, name="hx-degenerate/empty"))
     cases.append(dict(kind="hx", g={"nodes": [], "edges": []}, nodes=[1], its=True, name="hx-degenerate/empty-its"))
     syms = _periodic_symbols()
-    for k in range(150 if quick else 1200):
+    for k in range(150 if quick else 900):
         n = rng.randint(2, 7)
         els = ["C", "N", "O", "H", "H", "Cl"] if rng.random() < 0.6 else [rng.choice(syms) for _ in range(4)] + ["*"]
         g = _rand_its(rng, n, els, consistent=rng.random() < 0.85)
@@ -2312,7 +2312,7 @@ def gen_cases(tier, rng):
             continue
         cases.append(dict(kind="smart", rsmi=r, cfgs=[[True, False, False], [True, True, False], [False, False, False]],
                           name="smart/%s/%d" % (src, j)))
-        if not quick or len([c for c in cases if c["kind"] == "rxn"]) < 27:
+        if (not quick and i % 2 == 0) or (quick and len([c for c in cases if c["kind"] == "rxn"]) < 27):
             cases.append(dict(kind="rxn", rsmi=r, name="rxn/%s/%d" % (src, j)))
         if i % 4 == 1 and rxn_graphs(r, False) is not None:
             cases.append(dict(kind="smart", rsmi=r, sanitize=False, cfgs=[[True, False, False], [False, True, False]],
@@ -2331,7 +2331,7 @@ def gen_cases(tier, rng):
                           + ([[False, False, True]] if i % 3 == 0 or not quick else []),
                           name="its-full/%s/%d" % (src, j)))
         cases.append(dict(kind="its", its=rc, cfgs=[[True, True, False], [True, False, False]], name="its-centre/%s/%d" % (src, j)))
-        if i % 4 == 2 or not quick:
+        if i % 4 == 2 or (not quick and i % 2 == 0):
             # one ITS object exported, edited in place (counts unchanged), exported again
             un = [(u, v, a) for u, v, a in full["edges"] if a["order"][0] == a["order"][1] == 1]
             rcn = [n for n, _ in rc["nodes"]]
